@@ -394,6 +394,11 @@ def build_call(node, lib, scale=None, trace=None):
                 q = float(frac(p['q']) * VOLUME_CM3[p['unit']]) * f.density
         else:
             q = float(frac(p['q']) * LENGTH_M[p['unit']])
+        if mode in ('wt', 'vol') and 'rep' not in p and q == int(q) and 1 <= q <= 100:
+            # round 8: whole percentages are handed over as other kinds of whole numbers (their sum stays <= 100,
+            # inside every kind used; 100*q would not fit the narrow ones)
+            import numpy as np
+            q = (np.uint8, np.int16, int, np.int8, np.int64, float)[(i + len(node['parts']) + int(q)) % 6](int(q))
         arg = f
         if scale and i in scale:
             arg = scale[i] * f
